@@ -32,6 +32,6 @@ VFY_RULE = ("seeded generator of multi-node histories: clusters of 2-3 nodes (le
             "distinct = distinct input lines")
 for _pid in ("C16", "C17", "C18"):
     PROPS[_pid] = {
-        "streams": [S("vfy", 1500, 24000, vm=(40, 300), vm_maxlen=2500)],
+        "streams": [S("vfy", 1500, 20000, vm=(40, 300), vm_maxlen=2500)],
         "trusted": VFY_TRUSTED, "assumptions": VFY_ASSUME, "rule": VFY_RULE,
     }
